@@ -45,7 +45,7 @@ def handle (args : List String) : String :=
          | none => "unmodelled")   -- a raw sheet whose strings are not in the loaded table cannot be described
       | _ => "bad-op"
     -- edits change the implementation's objects only; the model sees the resulting value at save time
-    else if op = "set" ∨ op = "del" ∨ op = "remrow" ∨ op = "addsheet" ∨ op = "rmsheet" ∨ op = "clone" ∨ op = "touch" then "ok"
+    else if op = "set" ∨ op = "del" ∨ op = "remrow" ∨ op = "addsheet" ∨ op = "rmsheet" ∨ op = "clone" ∨ op = "touch" ∨ op = "diesave" then "ok"
     else "bad-op"
   | _ => "bad-op"
 
